@@ -87,6 +87,16 @@ HOW = {
                 lambda m: np.moveaxis(m, 0, 1), 'view', True),
     'bcast':   (lambda sh, c: True, lambda q, r: q.broadcast_to((2,) + q.shape, r),
                 lambda a, n: np.broadcast_to(a, (2,) + a.shape), lambda m: np.broadcast_to(m, (2,) + m.shape), 'bcast', True),
+    # broadcasts that only ADD unit axes (nothing is repeated, the result still shares the source's memory), and the
+    # same through Qube.broadcast(x, other)
+    'bcast1':  (lambda sh, c: True, lambda q, r: q.broadcast_to((1,) + q.shape, r),
+                lambda a, n: np.broadcast_to(a, (1,) + a.shape), lambda m: np.broadcast_to(m, (1,) + m.shape), 'bcast', True),
+    'bcast11': (lambda sh, c: True, lambda q, r: q.broadcast_to((1, 1) + q.shape, r),
+                lambda a, n: np.broadcast_to(a, (1, 1) + a.shape), lambda m: np.broadcast_to(m, (1, 1) + m.shape), 'bcast', True),
+    'bcastfn': (lambda sh, c: True, lambda q, r: Qube.broadcast(q, Scalar(np.ones((2,) + q.shape)), recursive=r)[0],
+                lambda a, n: np.broadcast_to(a, (2,) + a.shape), lambda m: np.broadcast_to(m, (2,) + m.shape), 'bcast', True),
+    'bcastfn1': (lambda sh, c: True, lambda q, r: Qube.broadcast(q, Scalar(np.ones((1,) + q.shape)), recursive=r)[0],
+                 lambda a, n: np.broadcast_to(a, (1,) + a.shape), lambda m: np.broadcast_to(m, (1,) + m.shape), 'bcast', True),
     'xnumer':  (lambda sh, c: c in ('Vector3', 'Pair'), lambda q, r: q.extract_numer(0, 1, Scalar, r),
                 lambda a, n: a[..., 1], None, 'keepmask', True),
     'tnumer':  (lambda sh, c: c == 'Matrix', lambda q, r: q.transpose_numer(0, 1, r), lambda a, n: np.swapaxes(a, -2, -1),
@@ -101,6 +111,7 @@ HOW = {
     'slicecast': (lambda sh, c: c == 'Vector3', lambda q, r: q.slice_numer(0, 0, 2, Boolean, r), lambda a, n: a[..., 0:2],
                   None, 'unmodelled', True),
 }
+BCAST_LEAD = {'bcast': (2,), 'bcast1': (1,), 'bcast11': (1, 1), 'bcastfn': (2,), 'bcastfn1': (1,)}
 MUT_KINDS = ['setitem', 'iop', 'setunits', 'deld', 'delds', 'insd', 'insds']
 IOPS = ['+=', '-=', '*=', '/=', '//=', '%=', '&=', '|=', '^=']
 SETITEM_ARGS = ['number', 'qube', 'masked', 'array', 'bool', 'list']
@@ -409,7 +420,7 @@ def request_of(R, op):
         if not isinstance(vals, np.ndarray):
             if mode != 'bcast':
                 return None
-            vidx = [0] * int(np.prod((2,) + q._shape_ + q._item_, dtype=int))
+            vidx = [0] * int(np.prod(BCAST_LEAD[op['how']] + q._shape_ + q._item_, dtype=int))
             return [['derive', op['v'], 'bcast', vidx, [], 'A', op['rec'], []]]
         vidx = idx_list(vf, vals, nsh)
 
@@ -646,19 +657,25 @@ def _run_history(case, judge=False):
             if id(q) not in frozen_at:
                 frozen_at[id(q)] = (t, {}, k)
                 keep.append(q)
-                if (k == 'asro' and op['rec'] is False) or (k == 'derive' and op['how'] == 'bcast' and i == op['v']
+                if (k == 'asro' and op['rec'] is False) or (k == 'derive' and op['how'] in BCAST_LEAD and i == op['v']
                                                             and not op['rec']):
                     shallow.add(id(q))
             known_arrays = frozen_at[id(q)][1]
             own = arrays_of(q)
             own_ids = {id(a) for a in own}
+            # an operation that hands back a read-only object sharing memory with its SOURCE (broadcast_to, broadcast)
+            # has the source in its hands and documents that it locks it: the source's own arrays are not "views the
+            # operation cannot reach", so a later write through them is not the known finding
+            reach_ids = set()
+            if i >= nv and k in ('derive', 'wod', 'clone', 'copy') and op['v'] < len(R.vars):
+                reach_ids = {id(a) for a in arrays_of(R.vars[op['v']])}
             for b in own:
                 if id(b) in known_arrays:
                     continue
                 outside = False
                 for p_ in R.vars:
                     for a in arrays_of(p_):
-                        if id(a) not in own_ids and a.flags.writeable and np.shares_memory(a, b):
+                        if id(a) not in own_ids and id(a) not in reach_ids and a.flags.writeable and np.shares_memory(a, b):
                             outside = True
                 for a in R.users:
                     if id(a) not in own_ids and a.flags.writeable and np.shares_memory(a, b):
@@ -875,7 +892,7 @@ def symbol_ops(sym, R, rng):
                 return n
         return None
     if sym == 'asro': return [{'op': 'asro', 'v': 0, 'rec': 'default'}]
-    if sym == 'bcast': return [{'op': 'derive', 'v': 0, 'how': 'bcast', 'rec': True}]
+    if sym in BCAST_LEAD: return [{'op': 'derive', 'v': 0, 'how': sym, 'rec': True}]
     if sym == 'view':
         h = first_how(0, ['i0', 'xnumer', 'tnumer'])
         return [{'op': 'derive', 'v': 0, 'how': h, 'rec': True}] if h else None
@@ -918,7 +935,7 @@ def symbol_ops(sym, R, rng):
 
 ALPHABET = ['asro', 'bcast', 'view', 'view-last', 'fancy', 'wod', 'copy', 'pickle', 'setitem', 'setitem-last', 'iop',
             'rawwrite', 'rawwrite-last', 'deld']
-ALPHABET_X = ['iop-last', 'maskwrite-last', 'deriv-setitem']
+ALPHABET_X = ['iop-last', 'maskwrite-last', 'deriv-setitem', 'bcast1', 'bcastfn1']
 
 
 def bfs_histories(depth, prefix_list, alphabet):
@@ -1142,6 +1159,37 @@ def gen_cases(rng, tier):
             for aim in aims:
                 cases.append({'hist': list(pops) + [{'op': 'wod', 'v': 0}] + route + aim + [{'op': 'wod', 'v': 0}],
                               'kind': 'held-wod:' + pname})
+    # 2d. operations that hand back a read-only object sharing memory with their SOURCE: every broadcast variant
+    #     (repeating, only adding unit axes, through Qube.broadcast), with and without derivatives, then a write history
+    #     on the SOURCE -- item assignment, whole-object assignment, in-place operators, raw writes into .values / .mask
+    #     and into the derivatives: each must raise ValueError or leave the read-only result as it was
+    for pname, pops in P:
+        R = Real()
+        for op in pops:
+            R.run(op)
+        q0 = R.vars[0]
+        if not isinstance(q0._values_, np.ndarray):
+            continue
+        num = 'number' if type(q0).__name__ in ('Scalar', 'Boolean') else 'qube'
+        for how in BCAST_LEAD:
+            for rec in (True, False):
+                hist = list(pops) + [{'op': 'derive', 'v': 0, 'how': how, 'rec': rec}]
+                w = [{'op': 'setitem', 'v': 0, 'index': 'i0' if q0._shape_ else 'ell', 'arg': 'number'},
+                     {'op': 'iop', 'v': 0, 'sym': '+=', 'arg': num}, {'op': 'iop', 'v': 0, 'sym': '*=', 'arg': 'number'},
+                     {'op': 'setitem', 'v': 0, 'index': 'ell', 'arg': 'number'},
+                     {'op': 'setunits', 'v': 0, 'u': 1, 'ov': 'default'}, {'op': 'delds', 'v': 0, 'ov': 'default'}]
+                nu = 0
+                if q0._values_.size:
+                    w += [{'op': 'rawref', 'v': 0, 'mask': False}, {'op': 'write', 'u': nu, 'pos': [0]}]; nu += 1
+                if isinstance(q0._mask_, np.ndarray) and q0._mask_.size:
+                    w += [{'op': 'rawref', 'v': 0, 'mask': True}, {'op': 'write', 'u': nu, 'pos': [0]}]; nu += 1
+                dv = len(R.vars) + 1
+                for kk in sorted(q0._derivs_):
+                    w += [{'op': 'getderiv', 'v': 0, 'k': KEYS.index(kk)},
+                          {'op': 'setitem', 'v': dv, 'index': 'i0' if q0._shape_ else 'ell', 'arg': 'number'},
+                          {'op': 'rawref', 'v': dv, 'mask': False}, {'op': 'write', 'u': nu, 'pos': [0]}]
+                    nu += 1; dv += 1
+                cases.append({'hist': hist + w, 'kind': 'source-write:%s:%s' % (how, pname)})
     # 2c. pickle round trips: every mask kind x with / without derivatives x every route to read-only, then the flags of
     #     every array of the result and of its derivatives are looked at, and each of them is written through directly
     PP = []
